@@ -3,6 +3,7 @@ import Tickit.Proof.RBCopy
 import Tickit.Proof.RBCopyMove
 import Tickit.Proof.RBCopyBridge
 import Tickit.Proof.RBCopyFuel
+import Tickit.Proof.RBCopyPen
 import Tickit.Gen.RBCopy
 /-
   C13 — copying, moving and blitting buffer regions preserve content cell for cell.
@@ -222,6 +223,118 @@ theorem blit_self (rb : RB) : blit Variant.repaired true rb rb = rb := by
   unfold blit copyrect
   simp
 
+/-! ## Line cells: "line segments merging into line cells already there", and the pen is the source's
+
+  `penLook p` (Model/RBCopy.lean) is what a pen makes a cell look like: the value of every getter of src/pen.c, the
+  RGB8 value of a colour (or that there is none) included.  `linecell` keeps the pen object of a line cell already
+  there when `tickit_pen_equiv` says the incoming pen is equivalent; the theorems below say that this is never
+  visible: a destination cell that receives a line cell holds the union of the segments and *looks* like the source
+  cell's pen (completed from the buffer's current pen) - in particular an RGB8 value the source's colour has and the
+  destination's lacks (or the other way round) arrives, whatever the value. -/
+
+/-- `tickit_pen_equiv` holds exactly of pens with the same look. -/
+theorem pen_equiv_iff_same_look (a b : Pen) : Pen.equiv a b = true ↔ penLook a = penLook b :=
+  equiv_iff_penLook a b
+
+/-- An RGB8 value refines a colour: a pen that has one is never equivalent to a pen with the same colour index and
+    none - whatever the value (`#000000`, what the getter returns for "no RGB8 value", included). -/
+theorem pen_rgb8_refinement_not_equiv (p q : Pen) (idx : Int) (v : RGB)
+    (h : (p.fg = some ⟨idx, none⟩ ∧ q.fg = some ⟨idx, some v⟩) ∨ (p.bg = some ⟨idx, none⟩ ∧ q.bg = some ⟨idx, some v⟩)) :
+    Pen.equiv p q = false ∧ Pen.equiv q p = false := by
+  have key : penLook p ≠ penLook q := by
+    intro he
+    rcases h with ⟨hp, hq⟩ | ⟨hp, hq⟩
+    · have := congrArg PenLook.fgRgb he
+      simp [penLook, Pen.getRgb, hp, hq] at this
+    · have := congrArg PenLook.bgRgb he
+      simp [penLook, Pen.getRgb, hp, hq] at this
+  constructor
+  · cases hx : Pen.equiv p q
+    · rfl
+    · exact absurd ((pen_equiv_iff_same_look p q).1 hx) key
+  · cases hx : Pen.equiv q p
+    · rfl
+    · exact absurd ((pen_equiv_iff_same_look q p).1 hx).symm key
+
+/-- Merging a line into a cell: the segments are united with those of a line cell already there, and the cell looks
+    like the incoming pen; when the pens are not equivalent (or there was no line cell) the pen *is* the incoming one. -/
+theorem merge_line_takes_source_pen (pen : Pen) (bits : Nat) (old : Content) :
+    ∃ q, mergeLine pen bits old = .line q (mergedMask bits old) ∧ penLook q = penLook pen ∧
+      (∀ p m, old = .line p m → Pen.equiv p pen = false → q = pen) ∧ ((∀ p m, old ≠ .line p m) → q = pen) :=
+  mergeLine_look pen bits old
+
+/-- **A line cell copied onto any cell**: a destination cell that clip and mask allow and whose source cell showed
+    line segments `m` in pen `p` shows, after the copy, those segments united with the ones it had (if it was a line
+    cell), in a pen that looks like `p` completed from the buffer's current pen. -/
+theorem copy_line_cell (rb : RB) (dr sr : Rect) (hwf : RBCopy.WF rb) (hxl : rb.xlLine = 0) (hxc : rb.xlCol = 0)
+    (hin : Inside rb sr) (hmoved : ¬ (dr.top = sr.top ∧ dr.left = sr.left)) (L C : Int)
+    (hsrc : sr.Mem (L - (dr.top - sr.top)) (C - (dr.left - sr.left))) (hw : writable rb L C = true)
+    (p : Pen) (m : Nat) (hs : absContent rb (L - (dr.top - sr.top)) (C - (dr.left - sr.left)) = .line p m) :
+    ∃ q, absContent (copy Variant.repaired rb dr sr) L C = .line q (mergedMask m (absContent rb L C)) ∧
+      penLook q = penLook (completePen p rb.pen) := by
+  rw [copy_spec_destination rb dr sr hwf hxl hxc hin hmoved L C hsrc hw, hs]
+  obtain ⟨q, h1, h2, _⟩ := mergeLine_look (completePen p rb.pen) m (absContent rb L C)
+  exact ⟨q, h1, h2⟩
+
+/-- **A line cell copied onto a line cell**: segments `m' ||| m`; the pen looks like the source's, and is the source's
+    (completed) pen outright when the two were not equivalent - e.g. when they differ in an RGB8 value only. -/
+theorem copy_line_onto_line (rb : RB) (dr sr : Rect) (hwf : RBCopy.WF rb) (hxl : rb.xlLine = 0) (hxc : rb.xlCol = 0)
+    (hin : Inside rb sr) (hmoved : ¬ (dr.top = sr.top ∧ dr.left = sr.left)) (L C : Int)
+    (hsrc : sr.Mem (L - (dr.top - sr.top)) (C - (dr.left - sr.left))) (hw : writable rb L C = true)
+    (p p' : Pen) (m m' : Nat) (hs : absContent rb (L - (dr.top - sr.top)) (C - (dr.left - sr.left)) = .line p m)
+    (hd : absContent rb L C = .line p' m') :
+    ∃ q, absContent (copy Variant.repaired rb dr sr) L C = .line q (m' ||| m) ∧
+      penLook q = penLook (completePen p rb.pen) ∧
+      (Pen.equiv p' (completePen p rb.pen) = false → q = completePen p rb.pen) := by
+  rw [copy_spec_destination rb dr sr hwf hxl hxc hin hmoved L C hsrc hw, hs, hd]
+  obtain ⟨q, h1, h2, h3, _⟩ := mergeLine_look (completePen p rb.pen) m (.line p' m')
+  exact ⟨q, h1, h2, h3 p' m' rfl⟩
+
+/-- The same for a move: a cell of the (source-sized) destination that receives a line cell. -/
+theorem move_line_cell (rb : RB) (dr sr : Rect) (hwf : RBCopy.WF rb) (hxl : rb.xlLine = 0) (hxc : rb.xlCol = 0)
+    (hin : Inside rb sr) (hmoved : ¬ (dr.top = sr.top ∧ dr.left = sr.left)) (L C : Int)
+    (hsrc : sr.Mem (L - (dr.top - sr.top)) (C - (dr.left - sr.left))) (hw : writable rb L C = true)
+    (p : Pen) (m : Nat) (hs : absContent rb (L - (dr.top - sr.top)) (C - (dr.left - sr.left)) = .line p m) :
+    ∃ q, absContent (move Variant.repaired rb dr sr) L C = .line q (mergedMask m (absContent rb L C)) ∧
+      penLook q = penLook (completePen p rb.pen) := by
+  rw [(move_spec rb dr sr hwf hxl hxc hin).1 L C]
+  unfold moveExpect
+  have hdm : Rect.memb ⟨dr.top, dr.left, sr.lines, sr.cols⟩ L C = true := by
+    rw [Rect.memb_iff]
+    unfold Rect.Mem Rect.bottom Rect.right at *
+    simp only at *
+    omega
+  rw [hdm]
+  simp only [Bool.not_true, Bool.and_false, Bool.false_and, if_false, Bool.false_eq_true]
+  rw [← (copy_spec rb dr sr hwf hxl hxc hin).1 L C]
+  exact copy_line_cell rb dr sr hwf hxl hxc hin hmoved L C hsrc hw p m hs
+
+/-- The same for a blit: a line cell of the source buffer landing on a destination cell that clip and mask allow. -/
+theorem blit_line_cell (dst src : RB) (hwf : RBCopy.WF dst) (hsrc : RBCopy.WF src) (hl : 0 ≤ src.lines) (hc : 0 ≤ src.cols)
+    (L C : Int) (hw : writable dst L C = true) (p : Pen) (m : Nat)
+    (hs : absContent src (L - dst.xlLine) (C - dst.xlCol) = .line p m) :
+    ∃ q, absContent (blit Variant.repaired false dst src) L C = .line q (mergedMask m (absContent dst L C)) ∧
+      penLook q = penLook (completePen p dst.pen) := by
+  rw [(blit_spec dst src hwf hsrc hl hc).1 L C]
+  unfold blitExpect copyExpect
+  have hm : Rect.memb ⟨0, 0, src.lines, src.cols⟩ (L - dst.xlLine) (C - dst.xlCol) = true := by
+    rw [Rect.memb_iff]
+    unfold absContent at hs
+    by_cases hh : 0 ≤ L - dst.xlLine ∧ L - dst.xlLine < src.lines ∧ 0 ≤ C - dst.xlCol ∧ C - dst.xlCol < src.cols
+    · unfold Rect.Mem Rect.bottom Rect.right
+      simp only
+      omega
+    · rw [if_neg hh] at hs; cases hs
+  rw [hm, hw, hs]
+  simp only [Bool.and_self, if_true]
+  obtain ⟨q, h1, h2, _⟩ := mergeLine_look (completePen p dst.pen) m (absContent dst L C)
+  exact ⟨q, h1, h2⟩
+
+/-- The vertical line `│` of a 4x10 buffer in pen `fg 0`, a horizontal line below it in pen `fg 0 #000000`. -/
+def cexLines : RB :=
+  setpen (hlineAt (setpen (vlineAt (setpen (RB.new 4 10 0 0) (some { fg := some ⟨0, none⟩ })) 0 2 5 1 0)
+    (some { fg := some ⟨0, some ⟨0, 0, 0⟩⟩ })) 3 2 8 1 0) none
+
 /-! ## "For every buffer content reachable by drawing programs"
 
   `RB.Op` / `RB.run` (Model/RB.lean) are the public state-changing operations of the render buffer and their
@@ -358,6 +471,27 @@ example : RBCopy.WF cexRun ∧ cexRun.xlLine = 0 ∧ cexRun.xlCol = 0 ∧ Inside
     absContent (copy Variant.repaired cexRun ⟨0, 1, 2, 3⟩ ⟨0, 3, 2, 3⟩) 1 3 = .skip ∧
     absContent (copy Variant.repaired cexRun ⟨0, 1, 2, 3⟩ ⟨0, 3, 2, 3⟩) 1 2 = .erase {} :=
   ⟨cexRun_wf, rfl, rfl, by unfold Inside Rect.Nonempty; decide, by decide +kernel, by decide +kernel⟩
+
+/-- Line cells of different pens copied onto one another (the hypotheses of `copy_line_onto_line` are inhabited): the
+    horizontal line in pen `fg 0 #000000` copied over the crossing with the vertical line in pen `fg 0` - the two pens
+    are not equivalent, the crossing gets all four segments and the pen with the RGB8 value; the vertical line's cells
+    outside the destination keep theirs. -/
+example :
+    RBCopy.WF cexLines ∧ Inside cexLines ⟨3, 2, 1, 7⟩ ∧ writable cexLines 1 5 = true ∧
+    absContent cexLines 3 5 = .line { fg := some ⟨0, some ⟨0, 0, 0⟩⟩ } 68 ∧
+    absContent cexLines 1 5 = .line { fg := some ⟨0, none⟩ } 17 ∧
+    Pen.equiv { fg := some ⟨0, none⟩ } { fg := some ⟨0, some ⟨0, 0, 0⟩⟩ } = false ∧
+    absContent (copy Variant.repaired cexLines ⟨1, 2, 1, 7⟩ ⟨3, 2, 1, 7⟩) 1 5 = .line { fg := some ⟨0, some ⟨0, 0, 0⟩⟩ } 85 ∧
+    absContent (copy Variant.repaired cexLines ⟨1, 2, 1, 7⟩ ⟨3, 2, 1, 7⟩) 0 5 = .line { fg := some ⟨0, none⟩ } 16 ∧
+    absContent (move Variant.repaired cexLines ⟨1, 2, 1, 7⟩ ⟨3, 2, 1, 7⟩) 1 5 = .line { fg := some ⟨0, some ⟨0, 0, 0⟩⟩ } 85 ∧
+    absContent (blit Variant.repaired false (vlineAt (setpen (RB.new 4 10 0 0) (some { fg := some ⟨0, none⟩ })) 0 2 5 1 0)
+      (hlineAt (setpen (RB.new 4 10 0 0) (some { fg := some ⟨0, some ⟨0, 0, 0⟩⟩ })) 1 2 8 1 0)) 1 5 =
+        .line { fg := some ⟨0, some ⟨0, 0, 0⟩⟩ } 85 := by
+  refine ⟨?_, by unfold Inside Rect.Nonempty; decide, by decide +kernel, by decide +kernel, by decide +kernel, by decide,
+    by decide +kernel, by decide +kernel, by decide +kernel, by decide +kernel⟩
+  exact wf_reachable 4 10 0 0 (by decide) (by decide)
+    [.setpen (some { fg := some ⟨0, none⟩ }), .vlineAt 0 2 5 1 0, .setpen (some { fg := some ⟨0, some ⟨0, 0, 0⟩⟩ }),
+     .hlineAt 3 2 8 1 0, .setpen none]
 
 /-- The repaired copy on the stack example keeps the frame. -/
 example : (copy Variant.repaired cexStack ⟨0, 0, 2, 4⟩ ⟨0, 1, 2, 4⟩).depth = 1 := by decide +kernel
